@@ -33,3 +33,19 @@ func (s *ImmuStore) simTrySingleVLogMu() bool {
 	}
 	return false
 }
+
+func (s *ImmuStore) simTryCommitStateR() bool {
+	if s.commitStateRWMutex.TryRLock() {
+		s.commitStateRWMutex.RUnlock()
+		return true
+	}
+	return false
+}
+
+func (s *ImmuStore) simTryCommitStateW() bool {
+	if s.commitStateRWMutex.TryLock() {
+		s.commitStateRWMutex.Unlock()
+		return true
+	}
+	return false
+}
